@@ -16,9 +16,9 @@ RULE = ('histories over {save_spike_clusters, save_metadata(field, mapping with 
         'column, blank first line, garbage text, a directory), save_spikes_subset_waveforms, close, reload} run on the real '
         'TemplateModel over generated dataset directories with raw data (KS / ALF / labelled ALF names, with or without a '
         'spike-cluster file, int16/float32/int32 raw files in 1-3 parts); the freshly loaded model is compared with the Coq '
-        'view after EVERY reload. quick: every history of length <= 3 over a 9-symbol alphabet (closed by a reload) on two '
-        'datasets, then seeded random histories of length <= 7; thorough: length <= 4 on three datasets, then sampled '
-        'histories of length <= 9. Non-trivial = at least one save precedes an observed reload; distinct = distinct '
+        'view after EVERY reload. quick: every history of length <= 3 over a 10-symbol alphabet (closed by a reload) on two '
+        'datasets, then 350 seeded random histories of length <= 8; thorough: every history of length <= 4 on one dataset and '
+        'of length <= 3 on three more, then 4000 sampled histories of length <= 10. Non-trivial = at least one save precedes an observed reload; distinct = distinct '
         '(dataset, history).')
 EXHAUSTIVE = {'quick': True, 'thorough': True}
 CLAUSES = {
@@ -62,8 +62,8 @@ def _foreign_valid(rng, name, fields):
 def _alphabet(rng, ds):
     """Ten concrete operations for one dataset (payloads fixed by the seed)."""
     ns = ds['sem']['n_spikes']
-    m1 = [[0, ['s', 'good']], [1, ['i', 3]], [2, None], [4, ['f', (2.5).hex()]]]
-    m2 = [[1, ['s', 'mua']], [3, ['f', (0.1).hex()]], [4, None]]
+    m1 = [[0, ['s', 'good']], [1, ['i', 3]], [2, None], [4, ['f', (2.5).hex()]], [6, ['i', 0]]]
+    m2 = [[1, ['s', 'mua']], [3, ['f', (0.1).hex()]], [4, None], [7, ['f', (0.0).hex()]]]
     return [
         ['clusters', T.rand_clusters(rng, ns, 'merge'), 'int64'],
         ['clusters', T.rand_clusters(rng, ns, 'small'), 'int32'],
@@ -210,8 +210,8 @@ def generate(tier, rng):
             cases.append(_case(ds, _random_history(rng, ds, rng.randint(1, 8))))
         return [_repair(c) for c in cases]
     # exhaustive small scope ------------------------------------------------------------------------------------
-    L, nds = (3, 2) if tier == 'quick' else (4, 3)
-    for ds in pool[:nds]:
+    scopes = [(3, pool[0]), (3, pool[1])] if tier == 'quick' else [(4, pool[0]), (3, pool[1]), (3, pool[2]), (3, pool[4])]
+    for L, ds in scopes:
         alpha = _alphabet(rng, ds)
         for n in range(1, L + 1):
             for h in itertools.product(range(len(alpha)), repeat=n):
@@ -221,7 +221,7 @@ def generate(tier, rng):
                 if not _use_after_close(ops, ds['sem']['n_spikes']):
                     cases.append(_case(ds, ops))
     # random stream -------------------------------------------------------------------------------------------------
-    nrand, lmax = (350, 7) if tier == 'quick' else (6000, 9)
+    nrand, lmax = (350, 7) if tier == 'quick' else (4000, 9)
     for _ in range(nrand):
         ds = rng.choice(pool)
         cases.append(_case(ds, _random_history(rng, ds, rng.randint(2, lmax))))
